@@ -40,6 +40,9 @@ def value_strategy(name, par):
         return st.floats(1.0, hi * 0.98)
     if name == "t":
         return logu(-8.0, -6.0)
+    if name.startswith("_"):
+        # "hidden" helper parameters of user models (developer docs): ordinary arguments of the model function
+        return st.floats(0.5, 2.0)
     return st.just(par.value)
 
 
@@ -131,7 +134,9 @@ def check_case(case, ctx):
     ctx.check(np.array_equal(before_x, x) and pstate(params) == before_p, "inputs-modified", desc,
               "model() changed its abscissa or parameters")
     # the wrapped model is the module's function of the approach-ordered abscissa (in one piece), re-oriented
-    if isinstance(f, np.ndarray) and f.shape == x.shape and not hasattr(md.module, "model"):
+    # (nanite attaches its default wrapper to the module as `model`: own wrappers carry another function name)
+    if isinstance(f, np.ndarray) and f.shape == x.shape and \
+            getattr(getattr(md.module, "model", None), "__name__", "") == "default_modeling_wrapper":
         vals = make_params(md, case).valuesdict()
         direct = md.module.model_func(x_desc.copy(), **vals)
         direct = direct[::-1] if case["ascending"] else direct
